@@ -174,6 +174,15 @@ def main(argv=None):
             rep = pool.apply(_replay_native, ((pid, sname, model),)) if model is not None else dict(failed=[], checked=[], note="no model", crash=None)
             ok = name in rep["failed"]
             confirmed.append((sname, name, full, bad, rep, ok))
+        # ---- known findings with a T1 witness: replay the committed witness on the real code
+        for e in kf:
+            if e.get("kind", "t1") == "t1" and e.get("witness") is not None:
+                rep = pool.apply(_replay_native, ((pid, e["scenario"], e["witness"]),))
+                if e["obligation"] in rep["failed"]:
+                    e["_seen"] = True
+                    lines.append(f"KNOWN-FINDING: property={pid} {e['what']}")
+                else:
+                    e["_stale_note"] = (rep.get("crash") or rep.get("note") or "")[-300:]
         bres = bres_async.get() if bres_async is not None else None
 
     # ---- classify T1 failures
